@@ -24,6 +24,9 @@ Circuit.abort / init_from_persistent_data), TrSend (ExtEvent.send); in tools/py2
 SBlock.event and Event.send as programs in a state + exception + early-return monad, property C11);
 tools/py2lean_fsm.py translates the control flow of `FSM._ctx_event` into a program over named primitives
 (Gen/TranslatedFsm.lean, tie theorems in EdzedProps/C04.lean `TrTie`); tools/py2lean_sig.py: CBlock.check_signature (C15).
+The simulator's main loop `Circuit._simulate` (with its inner `select_blk`) has a generator of its own,
+tools/py2lean_sim.py (statement-by-statement translation of one pass through `while True:` into a step
+function over the loop's locals, primitives as parameters) -> Gen/TranslatedSimulate.lean.
 
 Usage: py2lean.py <output file>
 """
@@ -1182,6 +1185,9 @@ def main(outfile):
     py2lean_oasync.main(os.path.join(os.path.dirname(outfile), 'TranslatedOutputAsync.lean'), dict(Untranslatable=Untranslatable, node_path=node_path, fn_ast=fn_ast, emit=emit, write_if_changed=write_if_changed))
     import py2lean_lifecycle                                     # separate module: run_forever & co. (C08)
     py2lean_lifecycle.main_lifecycle(os.path.join(os.path.dirname(outfile), 'TranslatedLifecycle.lean'), sys.modules[__name__])
+    import py2lean_sim
+    py2lean_sim.main_simulate(os.path.join(os.path.dirname(outfile), 'TranslatedSimulate.lean'),
+                              lambda: fn_ast(simulator.Circuit._simulate), write_if_changed)
 
 
 if __name__ == '__main__':
